@@ -276,18 +276,42 @@ fn child_prod(tier: Tier, lo: u64, hi: u64) -> i32 {
     let p = C01;
     let chunk = 512u64;
     let chunks = (hi - lo).div_ceil(chunk);
+    // watchdog: every worker publishes the index it is working on; an index that takes longer than 5 s is
+    // reported as HANG and the child exits (the parent resumes around it)
+    use std::sync::atomic::{AtomicU64, Ordering};
+    static CURRENT: [AtomicU64; 64] = [const { AtomicU64::new(u64::MAX) }; 64];
+    static STARTED_MS: [AtomicU64; 64] = [const { AtomicU64::new(0) }; 64];
+    let t0 = Instant::now();
+    std::thread::spawn(move || loop {
+        std::thread::sleep(Duration::from_millis(250));
+        let now = t0.elapsed().as_millis() as u64;
+        for slot in 0..64 {
+            let idx = CURRENT[slot].load(Ordering::Relaxed);
+            let st = STARTED_MS[slot].load(Ordering::Relaxed);
+            if idx != u64::MAX && now.saturating_sub(st) > 5000 && CURRENT[slot].load(Ordering::Relaxed) == idx {
+                println!("HANG {}", idx);
+                use std::io::Write;
+                let _ = std::io::stdout().flush();
+                std::process::exit(12);
+            }
+        }
+    });
     let acc = (0..chunks)
         .into_par_iter()
         .fold(Acc::default, |mut acc, ci| {
             let a = lo + ci * chunk;
             let b = (a + chunk).min(hi);
+            let slot = rayon::current_thread_index().unwrap_or(63) % 64;
             for i in a..b {
+                STARTED_MS[slot].store(t0.elapsed().as_millis() as u64, Ordering::Relaxed);
+                CURRENT[slot].store(i, Ordering::Relaxed);
                 let c = decode(&sp, i);
                 if acc.samples.is_empty() && i % 50021 == 7 {
                     acc.samples.push(json!({"input": String::from_utf8_lossy(&input_of(&c.tokens)), "target": TARGETS[c.target as usize], "entry": ENTRIES[c.entry as usize], "options": OPTION_VECTORS[c.optvec as usize]}));
                 }
                 process_case(&p, &mut acc, &c);
             }
+            CURRENT[slot].store(u64::MAX, Ordering::Relaxed);
             acc
         })
         .reduce(Acc::default, Acc::merge);
@@ -335,6 +359,21 @@ fn prod_range(tier: Tier, lo: u64, hi: u64, limit: Duration, acc: &mut Acc, dept
         *acc = merged;
         return Ok(());
     }
+    if code == Some(12) {
+        // the child's watchdog named the index that does not finish: record it and resume around it
+        let idx: u64 = out.lines().find_map(|l| l.strip_prefix("HANG ").and_then(|x| x.trim().parse().ok())).ok_or("child reported a hang without an index")?;
+        let (sp, _) = space(tier);
+        let c = decode(&sp, idx);
+        acc.evaluations += 1;
+        acc.add_violation(C01.key(&c, "hang"), "hang", "the call did not return within 5 s (watchdog in the exploring child)".to_string(), serde_json::to_value(&c).unwrap(), json!({}));
+        if idx > lo {
+            prod_range(tier, lo, idx, limit, acc, depth + 1)?;
+        }
+        if idx + 1 < hi {
+            prod_range(tier, idx + 1, hi, limit, acc, depth + 1)?;
+        }
+        return Ok(());
+    }
     if code.is_some() && code != Some(0) && !timed_out && code != Some(101) {
         return Err(format!("child exited with {:?}", code));
     }
@@ -348,7 +387,7 @@ fn prod_range(tier: Tier, lo: u64, hi: u64, limit: Duration, acc: &mut Acc, dept
         acc.add_violation(key, what, format!("the process {} on this input (child killed / died on a signal)", if timed_out { "did not finish" } else { "aborted" }), serde_json::to_value(&c).unwrap(), json!({}));
         return Ok(());
     }
-    if depth > 48 {
+    if depth > 200 {
         return Err("bisection too deep".into());
     }
     let mid = lo + (hi - lo) / 2;
